@@ -818,7 +818,7 @@ func (e *c18CLI) rcpCase(kind string, file []byte, lines []c18Line, note string)
 			}
 			l := own[n-1]
 			sn, _ := sshSniff(l)
-			if !isContent(l) || cliRecipientOK(l) || sn == 0 || (sn != 3 && !sshValid(l)) {
+			if !isContent(l) || cliRecipientOK(l) || !(sn == 3 || (sn == 1 && sshValid(l))) {
 				orc = append(orc, fmt.Sprintf("line %d (%q) was skipped with a warning but is not an unsupported SSH public key", n, trunc80(l)))
 			}
 		}
